@@ -497,6 +497,23 @@ class Check:
         (ROOT / "evidence" / f"{self.pid}.json").write_text(json.dumps(ev, indent=1, default=str))
 
 
+def pmap(fn, items, nproc=None):
+    """Fork-based parallel map (the implementation is called in-process inside each worker)."""
+    import multiprocessing as mp
+
+    items = list(items)
+    nproc = nproc or min(int(os.environ.get("VERIF_NPROC", "12")), max(1, len(items)))
+    if nproc <= 1 or len(items) < 4:
+        return [fn(x) for x in items]
+    ctx = mp.get_context("fork")
+    with ctx.Pool(nproc) as pool:
+        return pool.map(fn, items, chunksize=max(1, len(items) // (nproc * 4)))
+
+
+def case_rng(pid, seed, icase):
+    return random.Random(f"{pid}-{seed}-{icase}")
+
+
 def load_known():
     p = ROOT / "known_findings.json"
     if not p.exists():
